@@ -32,7 +32,7 @@ trait Meta: Serialize + DeserializeOwned + Clone {
 }
 impl Meta for GenericMetadata {
     fn of_json(v: &Value) -> Self {
-        if v.is_null() { None } else { Some(toml::from_str(&string_of(v)).expect("metadata toml")) }
+        if v.is_null() { None } else { Some(hash_order(toml::from_str(&string_of(v)).expect("metadata toml"))) }
     }
     fn dump(&self) -> Value {
         dump::generic(self)
